@@ -34,6 +34,7 @@ import (
 	"strconv"
 	"strings"
 	"sync"
+	"sync/atomic"
 	"time"
 )
 
@@ -481,7 +482,9 @@ func (req *Request) write(w io.Writer, usingProxy bool, extraHeaders Header) err
 	if err != nil {
 		return err
 	}
-	req.State.BodySize = uint32(n)
+	// Note: the transport's writeLoop runs this while the caller of RoundTrip may already
+	// have got the response and read BodySize
+	atomic.StoreUint32(&req.State.BodySize, uint32(n))
 
 	if bw != nil {
 		return bw.Flush()
